@@ -121,7 +121,7 @@ SelectionOK(e, kept) ==
 
 \* the end points of a diagram are reactant / product states (the drawing of a transition
 \* state needs the state after it)
-TSNodes == {st.nodes[i][1] : i \in {j \in 1..Len(st.nodes) : st.nodes[j][2]}}
+TSNodes == TSOf(st.rx, TRUE)
 
 DiagramClauses(e) ==
    LET T == RangeOf(e.tg) IN
